@@ -280,6 +280,30 @@ func cmdC13(args []string) {
 			}
 			ev["nerrs"] = cnt
 		}()
+		// the same string next to other (valid) entries of the list, before and after them: the verdict on a pattern must not
+		// depend on its neighbours or its position
+		ctxs := []map[string]any{}
+		for ci, list := range [][]string{{"*", s}, {s, "*"}, {"https://ctx.example", s}, {s, "https://ctx.example"}, {"*", "https://ctx.example", s}} {
+			cx := map[string]any{"k": ci, "accepted": false, "named": false, "panicked": false}
+			func() {
+				defer func() {
+					if p := recover(); p != nil {
+						cx["panicked"] = true
+					}
+				}()
+				_, err := cors.NewMiddleware(cors.Config{Origins: list, ExtraConfig: cors.ExtraConfig{DangerouslyTolerateSubdomainsOfPublicSuffixes: true}})
+				cx["accepted"] = err == nil
+				if err != nil {
+					for e := range cfgerrors.All(err) {
+						if x, ok := e.(*cfgerrors.UnacceptableOriginPatternError); ok && x != nil && x.Value == s {
+							cx["named"] = true
+						}
+					}
+				}
+			}()
+			ctxs = append(ctxs, cx)
+		}
+		ev["ctx"] = ctxs
 		t.emit(ev)
 		n++
 		if len(samples) < 4 && n%997 == 3 {
